@@ -534,6 +534,17 @@ fn fam_adversarial(o: &mut Out, quick: bool, _rng: &mut Rng) {
             }
         }
     }
+    // a discontinuous right-hand side early in a long interval: the step size recovers after the jump was located
+    for m in ADAPTIVE {
+        for (x0, xend) in [(0.0, 100.0), (2.0, -100.0)] {
+            let mut c = base(m, Problem::new("signc", 1.0), x0, xend);
+            c.rtol = vec![1e-9];
+            c.atol = vec![1e-9];
+            c.budget = Some(300_000);
+            c.tags = vec!["discontinuity_then_long_interval".into(), "default_budget".into()];
+            o.run(c);
+        }
+    }
     for c in singular_cases() {
         o.run(c.clone());
         let mut c2 = c.clone();
@@ -829,6 +840,24 @@ fn fam_lowlevel(o: &mut Out, quick: bool, rng: &mut Rng) {
                 c.script = (10..90).map(|k| Script { k, action: "modify_same".into() }).collect();
                 c.tags = vec!["modify_same_every_callback".into()];
                 o.run(c);
+            }
+            // Radau: an oversized first step on a nonlinear problem - the Newton iteration fails and the halved step is accepted
+            if *m == "RADAU" && si == 0 {
+                for (y0, fs) in [(1.0e-3, 3.5), (1.0e-4, 4.5), (1.0e-3, 7.0), (1.0e-2, 2.5)] {
+                    for api in ["low", "solve_ivp"] {
+                        for jac in ["user", "fd"] {
+                            let mut c = base(m, Problem::new("logistic", 0.0), 0.0, 10.0);
+                            c.api = api.into();
+                            c.y0 = vec![y0];
+                            c.rtol = vec![1e-3];
+                            c.atol = vec![1e-3];
+                            c.first_step = Some(fs);
+                            c.jac = jac.into();
+                            c.tags = vec!["newton_failure_then_accept".into()];
+                            o.run(c);
+                        }
+                    }
+                }
             }
             // doubling at the initial callback
             for p in [Problem::new("lin2", 0.0), Problem::new("decay", 1.0)] {
@@ -1257,6 +1286,23 @@ fn fam_terminal_tinysteps(o: &mut Out) {
             if m == "RK4" { c.first_step = Some(hs); } else { c.max_step = Some(hs); }
             c.events = vec![EventSpec { kind: "t-c".into(), a: x0 + dir * 20.4 * hs, dir: "All".into(), term: 1 }];
             c.tags = vec!["terminal_in_tiny_step".into()];
+            o.run(c);
+        }
+    }
+}
+
+/// C05 / C10: an unbounded span, the run ends at its terminal event; requested times up to the event are reported
+fn fam_terminal_unbounded(o: &mut Out) {
+    for m in METHODS {
+        for dir in [1.0, -1.0] {
+            let mut c = base(m, Problem::new("decay", dir), 0.0, dir * f64::INFINITY);
+            c.jac = "user".into();
+            if m == "RK4" { c.first_step = Some(0.05); }
+            c.events = vec![EventSpec { kind: "y0-a".into(), a: 0.25, dir: "All".into(), term: 1 }];
+            c.tags = vec!["unbounded_span+terminal".into()];
+            o.run(c.clone());
+            c.t_eval = Some((1..=7).map(|i| dir * 0.15 * i as f64).collect());
+            c.tags = vec!["unbounded_span+terminal+t_eval".into()];
             o.run(c);
         }
     }
@@ -1848,6 +1894,47 @@ fn fam_teval_offset(o: &mut Out) {
     }
 }
 
+/// C06 / C05: a single requested time (the end, or an interior one) with dense output
+fn fam_teval_single(o: &mut Out) {
+    for m in METHODS {
+        for (x0, xend) in [(0.0, 2.0), (2.0, 0.0)] {
+            for frac in [1.0, 0.6] {
+                let mut c = base(m, Problem::new("sho", 0.0), x0, xend);
+                c.dense = true;
+                if m == "RK4" { c.first_step = Some((xend - x0) / 16.0); }
+                c.t_eval = Some(vec![x0 + frac * (xend - x0)]);
+                c.tags = vec![if frac == 1.0 { "t_eval_only_xend+dense".into() } else { "t_eval_single_interior+dense".into() }];
+                o.run(c);
+            }
+        }
+    }
+}
+
+/// C05: BDF with a lower step bound, xend placed a fraction of min_step beyond an accepted step end of the free run
+fn fam_teval_minstep(o: &mut Out) {
+    for (x0, dir) in [(0.0, 1.0), (0.0, -1.0)] {
+        let ms = 1.0e-3;
+        let mut c = base("BDF", Problem::new("sho", 0.0), x0, x0 + dir * 2.0);
+        c.rtol = vec![1e-4];
+        c.atol = vec![1e-7];
+        c.jac = "user".into();
+        c.min_step = Some(ms);
+        c.tags = vec!["min_step+grid_run".into()];
+        let a = o.run(c.clone());
+        let grid: Vec<f64> = match &a.sol { Some(s) => s.t.clone(), None => continue };
+        for k in (grid.len() / 3..grid.len().saturating_sub(2)).step_by(3).take(12) {
+            for off in [0.4, -0.4] {
+                let xe = grid[k] + dir * off * ms;
+                let mut v = c.clone();
+                v.xend = xe;
+                v.t_eval = Some(vec![grid[k.saturating_sub(1)], xe]);
+                v.tags = vec!["min_step+xend_near_grid+t_eval".into()];
+                o.run(v);
+            }
+        }
+    }
+}
+
 fn fam_teval_zero(o: &mut Out) {
     for m in METHODS {
         for x0 in [2.0, -50.0] {
@@ -2047,10 +2134,10 @@ fn main() {
             "lowlevel" => fam_lowlevel(&mut o, quick, &mut rng),
             "observer" => { fam_observer(&mut o, quick, &mut rng); fam_observer_wide(&mut o, quick); fam_observer_firststep(&mut o); fam_observer_long(&mut o, quick); fam_observer_stiff(&mut o); fam_observer_terminal(&mut o); fam_observer_tinyspan(&mut o); }
             "budget" => { fam_budget(&mut o, quick, &mut rng); fam_budget_early_rejections(&mut o, quick); fam_budget_radau(&mut o, quick); fam_budget_singular(&mut o); }
-            "terminal" => { fam_terminal(&mut o, quick, &mut rng); fam_terminal_last(&mut o, quick); fam_terminal_sweep(&mut o, quick); fam_terminal_budget(&mut o); fam_terminal_tinysteps(&mut o); }
+            "terminal" => { fam_terminal(&mut o, quick, &mut rng); fam_terminal_last(&mut o, quick); fam_terminal_sweep(&mut o, quick); fam_terminal_budget(&mut o); fam_terminal_tinysteps(&mut o); fam_terminal_unbounded(&mut o); }
             "symmetry" => fam_symmetry(&mut o, quick, &mut rng),
             "storage" => { fam_storage(&mut o, quick, &mut rng); fam_storage_mass(&mut o, quick); fam_storage_jacsource(&mut o); }
-            "teval" => { fam_teval(&mut o, quick, &mut rng); fam_teval_zero(&mut o); fam_teval_landing(&mut o); fam_teval_offset(&mut o); }
+            "teval" => { fam_teval(&mut o, quick, &mut rng); fam_teval_zero(&mut o); fam_teval_landing(&mut o); fam_teval_offset(&mut o); fam_teval_single(&mut o); fam_teval_minstep(&mut o); }
             "events" => { fam_events(&mut o, quick, &mut rng); fam_events_small(&mut o); fam_events_codes(&mut o); fam_events_tiny(&mut o); fam_events_zero(&mut o); fam_events_tinysteps(&mut o); fam_events_counted(&mut o); }
             _ => { eprintln!("unknown family {}", fam); std::process::exit(2); }
         }
